@@ -192,9 +192,11 @@ J_classify(e) ==
          ELSE IF ~DispatcherAgrees(e) THEN "accepted-but-dispatcher-fails-without-exception-reply"
          ELSE "ok"
     \* (this clause first: an unsupported function code that the classifier ACCEPTS must not be judged as an accepted frame)
-    ELSE IF cl.kind = "unsupported" /\ ~e.allow /\ e.frame[8] \in 1..127 THEN
+    \* (function bytes 128..255 have the exception bit set already: what "the matching exception" is for them is not
+    \* defined by the statement - the library answers with the bit cleared - so only their classification is judged)
+    ELSE IF cl.kind = "unsupported" /\ ~e.allow /\ e.frame[8] \in 1..255 THEN
          IF e.kind # "unsupported" THEN (IF Dev_C18_F1(e) THEN "known:C18-F1" ELSE "unsupported-function-not-classified-as-such")
-         ELSE IF e.excBytes # cl.exc THEN "illegal-function-exception-does-not-match-request"
+         ELSE IF e.frame[8] <= 127 /\ e.excBytes # cl.exc THEN "illegal-function-exception-does-not-match-request"
          ELSE IF e.n # cl.n THEN "expected-length-not-6-plus-length-field"
          ELSE "ok"
     ELSE IF e.kind = "ok" THEN
